@@ -3,6 +3,8 @@
 struct Scan {
     has_exit: bool,
     assigned: Vec<Expr>,
+    /// receivers of `<place>.push(x)`: rewrites of the list when the translator models its elements
+    pushed: Vec<Expr>,
     calls: bool,
 }
 
@@ -19,6 +21,11 @@ impl<'ast> syn::visit::Visit<'ast> for Scan {
                 _ => {}
             },
             Expr::Closure(_) => return,
+            // `self.<list>.push(x)` rewrites the list
+            Expr::MethodCall(m) if m.method == "push" && m.args.len() == 1 && matches!(&*m.receiver, Expr::Field(_)) => {
+                self.pushed.push((*m.receiver).clone());
+                self.calls = true
+            }
             Expr::MethodCall(_) | Expr::Call(_) => self.calls = true,
             _ => {}
         }
@@ -27,13 +34,13 @@ impl<'ast> syn::visit::Visit<'ast> for Scan {
 }
 
 fn scan_block(b: &syn::Block) -> Scan {
-    let mut s = Scan { has_exit: false, assigned: vec![], calls: false };
+    let mut s = Scan { has_exit: false, assigned: vec![], pushed: vec![], calls: false };
     syn::visit::Visit::visit_block(&mut s, b);
     s
 }
 
 fn scan_expr(e: &Expr) -> Scan {
-    let mut s = Scan { has_exit: false, assigned: vec![], calls: false };
+    let mut s = Scan { has_exit: false, assigned: vec![], pushed: vec![], calls: false };
     syn::visit::Visit::visit_expr(&mut s, e);
     s
 }
@@ -116,6 +123,13 @@ impl<'a> Cx<'a> {
     /// Which variables / places of the enclosing scope a piece of code assigns.
     fn assigned_outer(&mut self, scan: &Scan, effects: bool) -> R<Vec<(String, bool)>> {
         let mut out: Vec<(String, bool)> = Vec::new();
+        for t in &scan.pushed {
+            if let Some(p) = self.path_of(t) {
+                if self.written.contains(&p) && !out.contains(&(p.clone(), true)) {
+                    out.push((p, true));
+                }
+            }
+        }
         for t in &scan.assigned {
             let item = if let Some(p) = self.path_of(t) {
                 (p, true)
@@ -389,9 +403,10 @@ impl<'a> Cx<'a> {
             return Ok(wrap_pre(&c.pre, format!("(if {} then\n  {}\n  else\n  {})", c.term, t, f)));
         }
         // no exits: the branches meet again; the assigned variables are handed over as a tuple
-        let mut all = Scan { has_exit: false, assigned: then_scan.assigned.clone(), calls: then_scan.calls };
+        let mut all = Scan { has_exit: false, assigned: then_scan.assigned.clone(), pushed: then_scan.pushed.clone(), calls: then_scan.calls };
         if let Some(s) = &else_scan {
             all.assigned.extend(s.assigned.clone());
+            all.pushed.extend(s.pushed.clone());
             all.calls |= s.calls;
         }
         let had_effects = self.has_effects;
@@ -754,6 +769,25 @@ impl<'a> Cx<'a> {
                         let body = self.block(rest, k)?;
                         Ok(wrap_pre(&tx.pre, body))
                     }
+                    Expr::MethodCall(mc)
+                        if mc.method == "push"
+                            && mc.args.len() == 1
+                            && matches!(&*mc.receiver, Expr::Field(_))
+                            && self.path_of(&mc.receiver).map(|p| self.written.contains(&p)).unwrap_or(false) =>
+                    {
+                        let p = self.path_of(&mc.receiver).unwrap();
+                        let cur = self.place(&p)?;
+                        let et = match &cur.ty {
+                            LT::List(t) => (**t).clone(),
+                            t => return self.un(format!("push onto `{}` of type {:?}", p, t)),
+                        };
+                        let x = self.expr(&mc.args[0], Some(&et))?;
+                        if x.ty != et {
+                            return self.un(format!("push onto `{}`: modelled types differ", p));
+                        }
+                        let body = self.block(rest, k)?;
+                        Ok(wrap_pre(&x.pre, format!("(let {} := {} ++ [{}];\n  {})", cur.lean, cur.lean, x.term, body)))
+                    }
                     Expr::MethodCall(mc) if self.vm_mode && self.vm_statement(mc).is_some() => {
                         let (pre, upd) = self.vm_statement_tx(mc)?;
                         let body = self.block(rest, k)?;
@@ -1035,24 +1069,82 @@ impl<'a> Cx<'a> {
     }
 
     fn stmt_for(&mut self, f: &syn::ExprForLoop, rest: &[Stmt], k: &Kont) -> R<String> {
-        let (x, _) = self.simple_pat(&f.pat)?;
+        // the loop variable: a name, or a tuple of names (`for (i, x) in xs.iter().enumerate()`)
+        let names: Vec<String> = match &*f.pat {
+            Pat::Tuple(tp) => {
+                let mut v = Vec::new();
+                for q in tp.elems.iter() {
+                    v.push(self.simple_pat(q)?.0);
+                }
+                v
+            }
+            other => vec![self.simple_pat(other)?.0],
+        };
         let xs = self.expr(&f.expr, None)?;
         let elem = match &xs.ty {
             LT::List(t) => (**t).clone(),
             t => return self.un(format!("`for` over {:?} not modelled", t)),
         };
         let scan = scan_block(&f.body);
-        if scan.has_exit {
-            return self.un("`for` body with return / `?` not modelled");
-        }
         let vars = self.assigned_outer(&scan, true)?;
         // make sure every carried place exists before the loop
         let init = self.join_names(&vars)?;
         let snapshot = self.snapshot();
         self.scopes.push(BTreeMap::new());
-        let lx = self.declare(&x, elem);
+        let (lx, unpack) = if names.len() == 1 {
+            (self.declare(&names[0], elem), String::new())
+        } else {
+            let tys = match &elem {
+                LT::Tup(ts) if ts.len() == names.len() => ts.clone(),
+                t => return self.un(format!("tuple pattern over elements of type {:?}", t)),
+            };
+            let ev = self.fresh("e");
+            let mut unpack = String::new();
+            let n = names.len();
+            for (k2, (nm, ty)) in names.iter().zip(tys.iter()).enumerate() {
+                let mut term = ev.clone();
+                for _ in 0..k2 {
+                    term = format!("{}.2", term);
+                }
+                if k2 + 1 < n {
+                    term = format!("{}.1", term);
+                }
+                let l = self.declare(nm, ty.clone());
+                unpack.push_str(&format!("let {} := {};\n  ", l, term));
+            }
+            (ev, unpack)
+        };
         let sv = self.fresh("s");
         let lets = self.rebind_joined(&vars, &sv)?;
+        if scan.has_exit {
+            // a body that can leave the function: every pass answers `inl next-state` or `inr <the function's answer>`
+            self.loop_depth += 1;
+            let body = self.block(&seal(f.body.stmts.clone()), &Kont::LoopCont(vars.clone()));
+            self.loop_depth -= 1;
+            let body = body?;
+            self.scopes.pop();
+            self.restore(&snapshot);
+            let jv = self.fresh("j");
+            let lets_after = self.rebind_joined(&vars, &jv)?;
+            let after = self.block(rest, k)?;
+            return Ok(wrap_pre(
+                &xs.pre,
+                format!(
+                    "(Rs.M.bind (Rs.forInBrk {} {} fun {} {} =>\n  {}{}{}) fun r_ =>\n  match r_ with\n  | Sum.inr x_ => Rs.M.ok {}\n  | Sum.inl {} =>\n  {}{})",
+                    xs.term,
+                    Self::tuple_text(&init),
+                    lx,
+                    sv,
+                    unpack,
+                    lets,
+                    body,
+                    if self.loop_depth > 0 { "(Sum.inr x_)" } else { "x_" },
+                    jv,
+                    lets_after,
+                    after
+                ),
+            ));
+        }
         let body = self.block(&seal(f.body.stmts.clone()), &Kont::Join(vars.clone()))?;
         self.scopes.pop();
         self.restore(&snapshot);
@@ -1062,11 +1154,12 @@ impl<'a> Cx<'a> {
         Ok(wrap_pre(
             &xs.pre,
             format!(
-                "(Rs.M.bind (Rs.forIn {} {} fun {} {} =>\n  {}{}) fun {} =>\n  {}{})",
+                "(Rs.M.bind (Rs.forIn {} {} fun {} {} =>\n  {}{}{}) fun {} =>\n  {}{})",
                 xs.term,
                 Self::tuple_text(&init),
                 lx,
                 sv,
+                unpack,
                 lets,
                 body,
                 jv,
